@@ -160,10 +160,10 @@ theorem planTop_spec (c : Catalog) (ctes : List Name) (q : Node) (steps : List S
   | none => simp [hc] at h
   | some i => simp only [hc, Option.some.injEq] at h; exact ⟨i, rfl, h.symm⟩
 
-/-- when no sub-tree sits in a slot the walker skips (`f(x FROM y)`, LIMIT/OFFSET, `Delete.table`, …)
+/-- when only names and constants sit in slots the walker skips (CTE names, column lists, …)
 a whole-query pushdown mentions only tables of the target integration (or CTE names) -/
 theorem C10_partial_pushdown (c : Catalog) (ctes : List Name) (q : Node) (steps : List Step)
-    (hns : noSkip q = true) (h : planTop c ctes q = some steps) :
+    (hns : skipLeafOnly q = true) (h : planTop c ctes q = some steps) :
     ∃ i, steps = [.fetch i (strip i .noFrom .arg q)] ∧ ∀ parts ∈ allTables .arg q, belongs c ctes i parts := by
   obtain ⟨i, hc, hs⟩ := planTop_spec c ctes q steps h
   refine ⟨i, hs, ?_⟩
@@ -178,8 +178,11 @@ theorem C10_partial_pushdown (c : Catalog) (ctes : List Name) (q : Node) (steps 
 def Step.integration : Step → Name
   | .fetch i _ => i
 
-/-- `select substring(x from (select max(a) from int2.t2)) from int1.t1`: `Function.from_arg` is a slot the
-walker does not visit (before a58885a the CASE operand was another one) -/
+/-- model-level witness that the hypothesis of `C10_partial_pushdown` is needed: a sub-query in a slot the
+walker skips.  On the code this was `select case (select …) when …` until a58885a and
+`select substring(x from (select max(a) from int2.t2)) from int1.t1` until 674e01f; with the current walker
+no parser-produced tree has such a slot (`hyp:skipLeafOnly` is checked on every generated tree by
+`tools/props/c10.py`), so the theorem applies to all of them. -/
 def caseQuery : Node :=
   .scope (.sel false) (.cons .tbl (.ident [n!"int1", n!"t1"] false none)
     (.cons .tgt (.func false (.cons .arg (.ident [n!"x"] false none) (.cons .skip
